@@ -90,7 +90,7 @@ SCENARIOS: list[tuple[str, list[list]]] = [
     ("trigger bookkeeping", [["t.cond", "c1"], ["t.cond", "c3"], ["t.cond", "c1"], ["t.trg", "t1", ["c1"]], ["t.trg", "t2", ["c1", "c2"]], ["t.valid", [["c1", "e1"]]],
                              ["t.valids", [["c1", "e2"], ["c2", "e1"]]], ["t.valid", [["c1", "e1"]]], ["t.clear", [["c1", "e1"], ["c2", "e9"]]], ["t.claim", "run1", 1],
                              ["adv", "claim", -2], ["t.claim", "run1", 1], ["adv", "us", 0], ["t.claim", "run1", 60], ["t.claim", "run2", 60], ["t.cron", "c3", None],
-                             ["t.cron", "c3", "cur"], ["t.cron", "c3", "stale"], ["t.cron", "c3", None], ["t.clean"], ["t.trg", "t1", ["c1"]], ["purge", "trg"], ["t.cond", "c3"]]),
+                             ["t.cron", "c3", "cur"], ["t.cron", "c3", "stale"], ["t.cron", "c3", None], ["t.trg", "t3", ["c1"]], ["t.clean", "tA"], ["t.trg", "t1", ["c1"]], ["t.clean", "tB"], ["t.trg", "t3", ["c1"]], ["t.clean", "tA"], ["purge", "trg"], ["t.cond", "c3"]]),
     ("queue", [["call", "tA", "a", "d", None], ["route", "i0"], ["route", "g0"], ["call", "tB", "a", "x", None], ["retrieve"], ["retrieve"], ["route", "i1"], ["retrieve"], ["retrieve"],
                ["retrieve"], ["retrieve"], ["batch", "tB", [["a", "d"], ["b", "d"]]], ["purge", "broker"], ["retrieve"], ["route", "i2"], ["retrieve"]]),
     ("ownership and refused requests", [["call", "tA", "a", "d", None], ["set", "i0", "running", "rA"], ["set", "i0", "pending", "rA"], ["set", "i0", "running", "rB"],
